@@ -1,13 +1,13 @@
 SPECIFICATION STSpec
 CONSTANTS
   Entries <- K_Entries
-  Shapes <- K_Shapes
-  Bounds <- K_BoundsAll
+  Shapes <- K_ShapesQ
+  Bounds <- K_Bounds
   MaxLen = 4
-  MaxLoads = 3
+  MaxLoads = 2
   Dev <- KDevIdeal
   Contexts <- K_Contexts
-  Manips <- K_ManipsT
+  Manips <- K_Manips
 INVARIANT StackConfined
 INVARIANT ChunkEnvFromSandbox
 INVARIANT RunsInRequestedEnvS
